@@ -1013,7 +1013,15 @@ class FuncAnalysis:
             vals = list(args)
             if sub.cls is not None and not static and names and names[0] == "self":
                 vals = [V("obj:%s.%s" % (mod, sub.cls))] + vals
-            rv = sub.run(actuals=dict(zip(names, vals)))
+            acts = dict(zip(names, vals))
+            if any(isinstance(a_, ast.Starred) for a_ in node.args) or node.keywords:
+                # positions are not known statically (f(*seq) / keywords): parameters without a definite actual are unknown, not
+                # "unvalidated caller input"
+                acts = {n_: (acts[n_] if (n_ in acts and not acts[n_].has("param", "paramseq")) else TOP) for n_ in names}
+                for k_ in node.keywords:
+                    if k_.arg in names:
+                        acts[k_.arg] = self.ev(k_.value, self._env if self._env is not None else {})
+            rv = sub.run(actuals=acts)
             # a helper that only returns when its arguments have certain types validates the caller's names too
             if self._env is not None:
                 off = len(vals) - len(node.args)
